@@ -74,6 +74,10 @@ pub trait MemStore: Clone + Default {
     fn audit(&self) -> bool;
     /// exercise a pattern query (reads through i2t)
     fn query(&self, t: &ST) -> usize;
+    /// the same content read through the other index arms (must agree with `content`)
+    fn alt(&self) -> Vec<Vec<Value>> {
+        vec![]
+    }
 }
 fn p_term() -> ST {
     iri("http://ex/p")
@@ -112,6 +116,19 @@ macro_rules! mem_graph {
             fn query(&self, t: &ST) -> usize {
                 self.triples_matching(sophia_api::term::matcher::Any, sophia_api::term::matcher::Any, [t]).count()
             }
+            fn alt(&self) -> Vec<Vec<Value>> {
+                use sophia_api::term::matcher::Any;
+                let p = p_term();
+                let subs: Vec<ST> = self.triples().map(|t| t.unwrap().s().into_term::<ST>()).collect();
+                let by_p: Vec<Value> = self.triples_matching(Any, [&p], Any).map(|t| term_json(t.unwrap().s())).collect();
+                let mut by_o: Vec<Value> = vec![];
+                let mut by_so: Vec<Value> = vec![];
+                for x in &subs {
+                    by_o.extend(self.triples_matching(Any, Any, [x]).map(|t| term_json(t.unwrap().s())));
+                    by_so.extend(self.triples_matching([x], Any, [x]).map(|t| term_json(t.unwrap().s())));
+                }
+                vec![by_p, by_o, by_so]
+            }
         }
     };
 }
@@ -133,9 +150,26 @@ macro_rules! mem_dataset {
             fn query(&self, t: &ST) -> usize {
                 self.quads_matching(sophia_api::term::matcher::Any, sophia_api::term::matcher::Any, [t], sophia_api::term::matcher::Any).count()
             }
+            fn alt(&self) -> Vec<Vec<Value>> {
+                use sophia_api::term::matcher::Any;
+                let p = p_term();
+                let subs: Vec<ST> = self.quads().map(|q| q.unwrap().s().into_term::<ST>()).collect();
+                let by_p: Vec<Value> = self.quads_matching(Any, [&p], Any, Any).map(|q| term_json(q.unwrap().s())).collect();
+                let (mut by_o, mut by_g, mut by_so, mut by_pg, mut by_s) = (vec![], vec![], vec![], vec![], vec![]);
+                for x in &subs {
+                    by_o.extend(self.quads_matching(Any, Any, [x], Any).map(|q| term_json(q.unwrap().s())));
+                    by_g.extend(self.quads_matching(Any, Any, Any, [Some(x)]).map(|q| term_json(q.unwrap().s())));
+                    by_so.extend(self.quads_matching([x], Any, [x], Any).map(|q| term_json(q.unwrap().s())));
+                    by_pg.extend(self.quads_matching(Any, [&p], Any, [Some(x)]).map(|q| term_json(q.unwrap().s())));
+                    by_s.extend(self.quads_matching([x], Any, Any, Any).map(|q| term_json(q.unwrap().s())));
+                }
+                vec![by_p, by_o, by_g, by_so, by_pg, by_s]
+            }
         }
     };
 }
+mem_graph!(sophia_inmem::graph::GenericFastGraph<SimpleTermIndex<crate::store::Tiny3>>);
+mem_dataset!(sophia_inmem::dataset::GenericFastDataset<SimpleTermIndex<crate::store::Tiny5>>);
 mem_graph!(sophia_inmem::graph::FastGraph);
 mem_graph!(sophia_inmem::graph::LightGraph);
 mem_graph!(sophia_inmem::graph::small::FastGraph);
@@ -152,7 +186,8 @@ fn observe<S: MemStore>(slots: &[Option<Box<S>>]) -> Value {
             let ok = s.audit();
             // an instance whose audit fails is NOT read: that would be the very undefined behaviour under test
             let content = if ok { sorted(s.content()) } else { json!([]) };
-            v.push(json!({"id": i, "audit": ok, "content": content}));
+            let alt: Vec<Value> = if ok { s.alt().into_iter().map(sorted).collect() } else { vec![] };
+            v.push(json!({"id": i, "audit": ok, "content": content, "alt": alt}));
         }
     }
     Value::Array(v)
@@ -203,6 +238,20 @@ fn step<S: MemStore>(slots: &mut Vec<Option<Box<S>>>, op: &Value, pool: &[ST], t
             ev["x"] = json!(x);
             ev["y"] = json!(y);
         }
+        "CloneFrom" => {
+            // y.clone_from(&x): reuses y's allocations
+            let x = slot_of(op["x"].as_str().unwrap());
+            let y = slot_of(op["y"].as_str().unwrap());
+            if x != y {
+                if let (Some(src), Some(mut dst)) = (slots[x].take(), slots[y].take()) {
+                    (*dst).clone_from(&*src);
+                    slots[x] = Some(src);
+                    slots[y] = Some(dst);
+                }
+            }
+            ev["x"] = json!(x);
+            ev["y"] = json!(y);
+        }
         "Drop" => {
             let x = slot_of(op["x"].as_str().unwrap());
             slots[x] = None;
@@ -238,8 +287,9 @@ fn step<S: MemStore>(slots: &mut Vec<Option<Box<S>>>, op: &Value, pool: &[ST], t
             let mut added = vec![];
             for k in 0..n {
                 let t = iri(&format!("http://ex/grow{}", base + k));
-                slots[x].as_mut().unwrap().add(&t);
-                added.push(term_json(&t));
+                if slots[x].as_mut().unwrap().add(&t) {
+                    added.push(term_json(&t));
+                }
             }
             ev["x"] = json!(x);
             ev["ts"] = json!(added);
@@ -276,6 +326,10 @@ fn run_hist<S: MemStore>(name: &str, hist: &Value, pool: &[ST], tr: &mut Trace) 
 
 macro_rules! all_mem_impls {
     ($f:ident, $($a:expr),*) => {{
+        $f::<SimpleTermIndex<crate::store::Tiny2>>("SimpleTermIndex<Tiny2>", $($a),*);
+        $f::<SimpleTermIndex<crate::store::Tiny3>>("SimpleTermIndex<Tiny3>", $($a),*);
+        $f::<sophia_inmem::graph::GenericFastGraph<SimpleTermIndex<crate::store::Tiny3>>>("FastGraph<Tiny3>", $($a),*);
+        $f::<sophia_inmem::dataset::GenericFastDataset<SimpleTermIndex<crate::store::Tiny5>>>("FastDataset<Tiny5>", $($a),*);
         $f::<SimpleTermIndex<u16>>("SimpleTermIndex<u16>", $($a),*);
         $f::<SimpleTermIndex<u32>>("SimpleTermIndex<u32>", $($a),*);
         $f::<sophia_inmem::graph::FastGraph>("FastGraph", $($a),*);
@@ -334,9 +388,13 @@ fn random_all<S: MemStore>(name: &str, rng: &mut Rng, nhist: usize, len: usize, 
                 ops.push(json!({"op":"Del","x":xs[x],"t":*rng.pick(&ts)}));
             } else if k < 55 {
                 let y = (x + 1 + rng.below(2)) % 3;
-                // cloning over a live instance drops the old one
-                ops.push(json!({"op":"Clone","x":xs[x],"y":xs[y]}));
-                live[y] = true;
+                if live[y] && rng.chance(1, 2) {
+                    ops.push(json!({"op":"CloneFrom","x":xs[x],"y":xs[y]}));
+                } else {
+                    // cloning over a live instance drops the old one
+                    ops.push(json!({"op":"Clone","x":xs[x],"y":xs[y]}));
+                    live[y] = true;
+                }
             } else if k < 70 {
                 ops.push(json!({"op":"Drop","x":xs[x]}));
                 live[x] = false;
